@@ -18,7 +18,7 @@ fn c13_offsets_net() {
     assert!(core::mem::offset_of!(Config, mac) == 0, "C13: offset_of!(net Config, mac) != 0");
     assert!(core::mem::offset_of!(Config, status) == 6, "C13: offset_of!(net Config, status) != 6");
     assert!(size_of::<EthernetAddress>() == 6 && align_of::<EthernetAddress>() == 1, "C13: size_of::<[u8; 6]>() != 6");
-    assert!(size_of::<Status>() == 2 && align_of::<Status>() == 2);
+    assert!(size_of::<Status>() == 2 && align_of::<Status>() == 2, "C13: net Status is not a 2-byte register");
     let t = ScriptT::any(DeviceType::Network);
     let mac: EthernetAddress = read_config!(t, Config, mac).unwrap();
     let _st: Status = read_config!(t, Config, status).unwrap();
